@@ -36,6 +36,24 @@ Proof. reflexivity. Qed.
 Lemma error_through_casts e : cast_to_number N (VErr e) = RErr e /\ cast_to_string N (VErr e) = RErr e /\ cast_to_bool N (VErr e) = RErr e.
 Proof. repeat split. Qed.
 
+(* --- text as a logical: the comparison is made after lowercasing, so every case variant counts --- *)
+Theorem text_as_bool_case_insensitive s :
+  (str_lower N s = t_true -> cast_to_bool N (VStr s) = ROk true) /\
+  (str_lower N s = t_false -> cast_to_bool N (VStr s) = ROk false) /\
+  (str_lower N s <> t_true -> str_lower N s <> t_false -> cast_to_bool N (VStr s) = RErr EVALUE).
+Proof.
+  unfold cast_to_bool, bool_of_text. repeat split.
+  - intro H. rewrite H. reflexivity.
+  - intro H. rewrite H. reflexivity.
+  - intros H1 H2. destruct (text_eqb (str_lower N s) t_true) eqn:E1; [apply text_eqb_eq in E1; contradiction|].
+    destruct (text_eqb (str_lower N s) t_false) eqn:E2; [apply text_eqb_eq in E2; contradiction | reflexivity].
+Qed.
+(* the same cast is used for an element of an array *)
+Theorem text_element_as_bool_case_insensitive s :
+  (str_lower N s = t_true -> array_node_to_bool N (SStr s) = ROk true) /\
+  (str_lower N s = t_false -> array_node_to_bool N (SStr s) = ROk false).
+Proof. unfold array_node_to_bool, bool_of_text. split; intro H; rewrite H; reflexivity. Qed.
+
 Variable env : cref -> value.
 Variable anchor : cref.
 Notation ev := (eval N env anchor).
@@ -200,3 +218,16 @@ Theorem empty_compares_as_other_side x s b :
   compare_values N VEmptyCell (VBool b) = compare_values N (VBool false) (VBool b).
 Proof. repeat split. Qed.
 End Order.
+
+(* every case variant of "true" / "false" (2^4 and 2^5 spellings), with ASCII case mapping *)
+Fixpoint case_variants (t : text) : list text :=
+  match t with
+  | [] => [[]]
+  | c :: r => flat_map (fun v => [to_ascii_lower c :: v; to_ascii_upper c :: v]) (case_variants r)
+  end.
+Lemma all_case_variants_of_true_false :
+  forallb (fun v => match cast_to_bool ZOps (VStr v) with ROk true => true | _ => false end) (case_variants t_true) = true /\
+  forallb (fun v => match cast_to_bool ZOps (VStr v) with ROk false => true | _ => false end) (case_variants t_false) = true /\
+  length (case_variants t_true) = 16%nat /\ length (case_variants t_false) = 32%nat /\
+  cast_to_bool ZOps (VStr [32; 84; 82; 85; 69]) = RErr EVALUE.
+Proof. vm_compute. repeat split; reflexivity. Qed.
